@@ -17,7 +17,9 @@ def needles(secret_hex):
     except ValueError:
         return out       # a key value that is not hex (malformed key document): only its text can leak
     out.add(raw)
-    out.add(raw[:16]); out.add(raw[16:])
+    for i in range(0, len(raw), 16):
+        if len(raw[i:i + 16]) == 16:
+            out.add(raw[i:i + 16])
     b64 = base64.b64encode(raw)
     out.add(b64.rstrip(b"="))
     out.add(base64.urlsafe_b64encode(raw).rstrip(b"="))
@@ -90,6 +92,7 @@ def real_history(args, scratch):
     vdir = scratch + "/standin"
     imds = mockhost.MockHost("169.254.169.254", 80, lambda req: hostdocs.own_calls_handler("imds", req) or {"status": 200, "body": b"{}"}, name="imds")
     ws = wsmock.WsMock(key_dir=KEY_DIR, rng=r)
+    ws.key_bits = [256, 512, 128, 384][args["shard"] % 4]      # the key is as long as the host makes it
     ws.version = "2.0"
     ws.rules = {"wireserver": {"defaultAccess": "allow", "mode": "audit", "id": "w1"}, "imds": {"defaultAccess": "allow", "mode": "audit", "id": "i1"}}
     script = args["script"]
@@ -175,7 +178,7 @@ def real_history(args, scratch):
                 keydoc_steps[0] += 1
                 ws.fault("acquire", {"kind": "mangled-key-document", "how": ["wrong-type", "missing-member", "truncated", "trailing", "extra-member"][kd % 5]})
                 ws.fault("acquire", {"kind": "mangled-key-document", "how": ["non-hex-key", "odd-length-key", "status-201", "status-202", "status-206", "status-203"][kd % 6]})
-                ws.fault("acquire", {"kind": "mangled-key-document", "how": ["dot-guid", "odd-length-key", "non-hex-key", "empty-guid", "guid-with-path"][kd % 5]})
+                ws.fault("acquire", {"kind": "mangled-key-document", "how": ["abs-guid", "dot-guid", "odd-length-key", "non-hex-key", "empty-guid", "guid-with-path"][kd % 6]})
                 ws.latched = None
                 wait(lambda: ws.latched is not None, 15)
                 latched_sync()
